@@ -119,7 +119,7 @@ KINDS = {
     "C01": {"ledger", "O"}, "C02": {"O"}, "C03": {"O", "K", "HBL"}, "C04": {"corrupt", "A", "HB", "ledger", "O"}, "C05": {"ledger", "O"},
     "C06": {"stuck", "A"}, "C07": {"A", "HB", "M", "S"}, "C08": {"O"}, "C09": {"O", "A", "stuck", "ledger"}, "C10": {"O"},
     "C11": {"O", "stuck", "K"}, "C12": {"O", "K"}, "C13": {"O", "A", "ledger", "stuck", "K", "deadline"}, "C14": {"O", "K", "stuck", "RT"},
-    "C15": {"O", "A", "ledger", "stuck", "HB"}, "C16": {"O", "A", "stuck"}, "C17": {"M", "HBL", "RT"}, "C19": {"O", "K"},
+    "C15": {"O", "A", "ledger", "stuck", "HB"}, "C16": {"O", "A", "stuck"}, "C17": {"M", "HBL", "RT", "stuck"}, "C19": {"O", "K"},
 }
 
 
@@ -471,7 +471,10 @@ def explore(prop, tier, seed):
     if prop in ("C17", "ALL"):
         # a lock holder stalled for millions of steps while a blocking waiter spins through every phase of its back-off
         # (repeated failed attempts are logged once with a count): the waiter may enter only after the holder has left
-        jobs.append(("F5-freeze", "1", "h8", ["trysend 1 ; len", "tryrecv ; len"], ["pre 2:1 hold=0:4500000 limit=5000000"]))
+        jobs.append(("F5-freeze", "1", "h8", ["trysend 1 ; len", "tryrecv ; len"], ["pre 2:1 hold=0:3200000 limit=6000000"]))
+    if prop in ("C17", "C14", "ALL"):
+        # a realtime caller arriving while the lock holder is stalled inside its critical section: it must give up at once
+        jobs.append(("F5-rtfreeze", "1", "h8", ["trysend 1 ; len", "tryrecvrt ; trysendrt 5 ; tryrecvrt"], ["pre 2:1 hold=0:400", "pre 2:1 hold=0:60"]))
     # first pass: base schedules; second pass: single preemptions derived from the seq trace
     import concurrent.futures as cf
     shards = [jobs[k::16] for k in range(16)]
